@@ -135,41 +135,98 @@ let skip_of_mask (m : int) (t : tag) : bool =
     | TgRenameConstraint -> 4096 | TgOther -> 0 in
   m land b <> 0
 
+(* The MySQL server variants of harness/cmd/diff/fakemy.go: capabilities by version and the
+   effective charset tables (the entries of the embedded tables of
+   sql/mysql/internal/mysqlversion/is for the names the generated cases use, overridden /
+   extended by the rows the fake server returns). *)
+let my_variant (name : string) : mysql_variant =
+  let tbl l = Stdlib.List.map (fun (a, b) -> (bytes_of_string a, bytes_of_string b)) l in
+  let co_mysql = ["utf8mb4_0900_ai_ci", "utf8mb4"; "utf8mb4_general_ci", "utf8mb4"; "utf8mb4_bin", "utf8mb4";
+                  "latin1_swedish_ci", "latin1"; "latin1_bin", "latin1"; "ascii_general_ci", "ascii"; "ascii_bin", "ascii"] in
+  let co_maria = ["utf8mb4_general_ci", "utf8mb4"; "utf8mb4_bin", "utf8mb4"; "utf8mb4_uca1400_ai_ci", "utf8mb4";
+                  "latin1_swedish_ci", "latin1"; "latin1_bin", "latin1"; "ascii_general_ci", "ascii"; "ascii_bin", "ascii"] in
+  match name with
+  | "default" -> (* mysql.DefaultDiff: 8.0.31, embedded tables *)
+    { mv_check = true; mv_index_expr = true;
+      mv_ch2co = tbl ["utf8mb4", "utf8mb4_0900_ai_ci"; "latin1", "latin1_swedish_ci"; "ascii", "ascii_general_ci"];
+      mv_co2ch = tbl co_mysql }
+  | "my57" -> (* 5.7.44 *)
+    { mv_check = false; mv_index_expr = false;
+      mv_ch2co = tbl ["utf8mb4", "utf8mb4_general_ci"; "latin1", "latin1_swedish_ci"; "ascii", "ascii_general_ci"];
+      mv_co2ch = tbl co_mysql }
+  | "my80" -> (* 8.0.36, ascii defaults to ascii_bin on this server *)
+    { mv_check = true; mv_index_expr = true;
+      mv_ch2co = tbl ["utf8mb4", "utf8mb4_0900_ai_ci"; "latin1", "latin1_swedish_ci"; "ascii", "ascii_bin"];
+      mv_co2ch = tbl co_mysql }
+  | "maria" -> (* 10.11.6-MariaDB *)
+    { mv_check = true; mv_index_expr = false;
+      mv_ch2co = tbl ["utf8mb4", "utf8mb4_general_ci"; "latin1", "latin1_swedish_ci"; "ascii", "ascii_general_ci"];
+      mv_co2ch = tbl co_maria }
+  | v -> failwith ("mysql variant " ^ v)
+
 let () =
   let dialect = if Array.length Sys.argv > 1 then Sys.argv.(1) else "sqlite" in
   let schema_diff, table_diff = match dialect with
     | "sqlite" -> sqlite_schema_diff, sqlite_table_diff
-    | "mysql" -> mysql_schema_diff, mysql_table_diff
+    | "mysql" -> let v = my_variant "default" in mysql_schema_diff_v v, mysql_table_diff_v v
+    | "mysql-my57" | "mysql-my80" | "mysql-maria" ->
+      let v = my_variant (String.sub dialect 6 (String.length dialect - 6)) in mysql_schema_diff_v v, mysql_table_diff_v v
     | "postgres" -> pg_schema_diff, pg_table_diff
     | "postgres-ns" -> pg_public_schema_diff, pg_public_table_diff
     | d -> failwith ("dialect " ^ d) in
-  (try
-    while true do
-      let line = input_line stdin in
-      if line <> "" then begin
-        toks := Array.of_list (Stdlib.List.filter (fun s -> s <> "") (String.split_on_char ' ' line));
-        pos := 0;
-        let id = next () in
-        let op = next () in
-        let mask = next_int () in
-        let from = parse_schema () in
-        let to_ = parse_schema () in
-        let skip = skip_of_mask mask in
-        let obs = match op with
-          | "S" ->
-            (match schema_diff skip from to_ with
-             | None -> "err"
-             | Some [] -> "[]"
-             | Some cs -> String.concat ";" (Stdlib.List.map show_schange cs))
-          | "T" ->
-            (match from.s_tables, to_.s_tables with
-             | t1 :: _, t2 :: _ ->
-               (match table_diff skip t1 t2 with
-                | None -> "err"
-                | Some cs -> show_subs cs)
-             | _ -> "err")
-          | o -> failwith ("op " ^ o) in
-        Printf.printf "%s %s\n" id obs
-      end
-    done
-  with End_of_file -> ())
+  let process line =
+    toks := Array.of_list (Stdlib.List.filter (fun s -> s <> "") (String.split_on_char ' ' line));
+    pos := 0;
+    let id = next () in
+    let op = next () in
+    let mask = next_int () in
+    let from = parse_schema () in
+    let to_ = parse_schema () in
+    let skip = skip_of_mask mask in
+    let obs = match op with
+      | "S" ->
+        (match schema_diff skip from to_ with
+         | None -> "err"
+         | Some [] -> "[]"
+         | Some cs -> String.concat ";" (Stdlib.List.map show_schange cs))
+      | "T" ->
+        (match from.s_tables, to_.s_tables with
+         | t1 :: _, t2 :: _ ->
+           (match table_diff skip t1 t2 with
+            | None -> "err"
+            | Some cs -> show_subs cs)
+         | _ -> "err")
+      | o -> failwith ("op " ^ o) in
+    id ^ " " ^ obs ^ "\n" in
+  (* the cases are independent: read them all, evaluate contiguous chunks in forked workers
+     (VERIF_MODEL_JOBS, default 8), print the answers in the order of the input *)
+  let lines = ref [] in
+  (try while true do let l = input_line stdin in if l <> "" then lines := l :: !lines done with End_of_file -> ());
+  let all = Array.of_list (Stdlib.List.rev !lines) in
+  let n = Array.length all in
+  let jobs = try max 1 (int_of_string (Sys.getenv "VERIF_MODEL_JOBS")) with _ -> 8 in
+  let jobs = if n < 64 then 1 else jobs in
+  if jobs = 1 then Array.iter (fun l -> print_string (process l)) all
+  else begin
+    let chunk = (n + jobs - 1) / jobs in
+    let kids = Stdlib.List.init jobs (fun j ->
+      let lo = j * chunk and hi = min n ((j + 1) * chunk) in
+      let tmp = Filename.temp_file "model_diff" ".out" in
+      flush stdout;
+      match Unix.fork () with
+      | 0 ->
+        let oc = open_out tmp in
+        (try for i = lo to hi - 1 do output_string oc (process all.(i)) done; close_out oc; Unix._exit 0
+         with e -> prerr_endline (Printexc.to_string e); Unix._exit 3)
+      | pid -> (pid, tmp)) in
+    let ok = ref true in
+    Stdlib.List.iter (fun (pid, tmp) ->
+      (match Unix.waitpid [] pid with
+       | _, Unix.WEXITED 0 -> ()
+       | _ -> ok := false);
+      let ic = open_in_bin tmp in
+      let len = in_channel_length ic in
+      print_string (really_input_string ic len);
+      close_in ic; Sys.remove tmp) kids;
+    if not !ok then exit 3
+  end
